@@ -576,7 +576,7 @@ func (s *service) verifyBlock(b dbft.Block[util.Uint256]) bool {
 		fee += tx.SystemFee
 		if pool.HasConflicts(tx, s.Chain) {
 			err = errors.New("conflicts with another transaction of the block")
-		} else if mainPool.ContainsKey(tx.Hash()) {
+		} else if ptx, ok := mainPool.TryGetValue(tx.Hash()); ok && mempool.SameWitnesses(ptx, tx) {
 			err = pool.Add(tx, s.Chain)
 			if err == nil {
 				continue
